@@ -154,17 +154,27 @@ fn block_event(ctx: &SimCtx, rng: &mut impl Rng, start: usize, len: usize) -> Si
         if n % 3 != 0 && len < 256 {
             continue;
         }
-        let h = Hit { wire: (start + j) % 256, tbin: 20 + (j * 7) % 200, z: -1.0 + 2.0 * ((j * 37 % 101) as f64) / 101.0, amp: 80.0 + j as f64 };
+        let h = Hit { wire: (start + j) % 256, tbin: 20 + (j * 7) % 290, z: -1.0 + 2.0 * ((j * 37 % 101) as f64) / 101.0, amp: 80.0 + j as f64 };
+        sim::add_hit(ctx, &mut ev, &h, 1.1);
+    }
+    // pulses late in the waveform on the first and the last wire of the block
+    for (n, &j) in [0usize, len - 1].iter().enumerate() {
+        let h = Hit { wire: (start + j) % 256, tbin: 250 + 30 * n + rng.gen_range(0..20), z: sim::row_z(360 - 150 * n) + 0.0006, amp: 150.0 + 10.0 * n as f64 };
         sim::add_hit(ctx, &mut ev, &h, 1.1);
     }
     // induction may have created entries outside the block for short blocks: remove them (they are not part of the occupancy)
     let keep: std::collections::HashSet<usize> = (0..len).map(|j| (start + j) % 256).collect();
     ev.wires.retain(|w, _| keep.contains(w));
-    // waveforms of different lengths inside one block
+    // waveforms of different lengths inside one block: most wires are cut short by random amounts, so that
+    // any wire - in particular the first or the last of the block - can be the longest one
     if len >= 3 {
-        let w = (start + rng.gen_range(0..len)) % 256;
-        if let Some(s) = ev.wires.get_mut(&w) {
-            s.truncate(NSAMP - rng.gen_range(1..50));
+        for j in 0..len {
+            if rng.gen_bool(0.8) {
+                let w = (start + j) % 256;
+                if let Some(s) = ev.wires.get_mut(&w) {
+                    s.truncate(NSAMP - rng.gen_range(1..120));
+                }
+            }
         }
     }
     ev
@@ -187,6 +197,13 @@ pub fn run(runner: &mut Runner, data_dir: &str, seed: u64, thorough: bool) {
             let h = Hit { wire: rng.gen_range(0..256), tbin: rng.gen_range(0..250), z: rng.gen_range(-1.1..1.1), amp: rng.gen_range(20.0..400.0) };
             sim::add_hit(&ctx, &mut ev, &h, rng.gen_range(0.8..1.5));
         }
+        // charge at the very ends of the detector: clusters peaking on pad rows 1 and 574 (and beyond)
+        for &row in &[1usize, 574, 0, 575, 2, 573] {
+            if rng.gen_bool(0.6) {
+                let h = Hit { wire: rng.gen_range(0..256), tbin: rng.gen_range(0..250), z: sim::row_z(row) + rng.gen_range(-0.001..0.001), amp: rng.gen_range(50.0..300.0) };
+                sim::add_hit(&ctx, &mut ev, &h, 1.0);
+            }
+        }
         case(runner, &ctx, &mut rng, "hits", format!("h{ci}"), ev, if thorough { &all } else { &few });
     }
     // blocks of wires, in particular straddling the 255/0 seam
@@ -195,6 +212,30 @@ pub fn run(runner: &mut Runner, data_dir: &str, seed: u64, thorough: bool) {
         for &start in &[0usize, 250, 256 - len / 2, 100] {
             let ev = block_event(&ctx, &mut rng, start % 256, len);
             case(runner, &ctx, &mut rng, "block", format!("b{len}@{start}"), ev, if thorough { &all } else { &few });
+        }
+    }
+    // blocks in which one end wire has a much longer waveform than all others, with a pulse in that tail
+    for &len in &[6usize, 9, 17] {
+        for &start in &[250usize, 256 - len / 2, 100] {
+            for end in 0..2 {
+                let mut ev = SimEvent { wires: BTreeMap::new(), pads: BTreeMap::new(), hits: vec![], vertex: (0.0, 0.0, 0.0) };
+                for j in 0..len {
+                    ev.wires.insert((start + j) % 256, vec![0.0; NSAMP]);
+                }
+                let long = if end == 0 { 0 } else { len - 1 };
+                let h1 = Hit { wire: (start + long) % 256, tbin: 260, z: sim::row_z(388) + 0.0007, amp: 200.0 };
+                let h2 = Hit { wire: (start + len / 2) % 256, tbin: 60, z: sim::row_z(238) - 0.0005, amp: 120.0 };
+                sim::add_hit(&ctx, &mut ev, &h1, 1.1);
+                sim::add_hit(&ctx, &mut ev, &h2, 1.1);
+                let keep: std::collections::HashSet<usize> = (0..len).map(|j| (start + j) % 256).collect();
+                ev.wires.retain(|w, _| keep.contains(w));
+                for j in 0..len {
+                    if j != long {
+                        ev.wires.get_mut(&((start + j) % 256)).unwrap().truncate(200);
+                    }
+                }
+                case(runner, &ctx, &mut rng, "block-tail", format!("t{len}@{start}.{end}"), ev, if thorough { &all } else { &few });
+            }
         }
     }
     // the full ring
